@@ -82,6 +82,8 @@ def run(ctx: core.Ctx) -> None:
     n = 100 if ctx.quick else 1200
     raws2 = sc.trace_runs(ctx, sc.gen_configs(ctx.seed + 2, n, 80 if ctx.quick else 400), "C03", want_resid=False, want_rf=True)
     ctx.extra["repo_tests"] = sc.repo_test_traces(ctx, "C03", ["tests/flow/test_reservoir.py", "tests/forecast/test_forecast.py", "tests/test_plots.py"], False)
+    if not ctx.quick:   # the documentation notebooks, cell by cell (those that need the network stop at that cell)
+        ctx.extra["notebooks"] = sc.repo_test_traces(ctx, "C03", sc.NOTEBOOKS, False, module="bbv.drivers.notebooks")
     withc = [r for r in raws2 if "ceiling" in r]
     if withc:
         ctx.extra["closest_to_ceiling"] = min(r["ceiling"] + r["eps_table"] - r["rf_density_last"] for r in withc)
